@@ -18,6 +18,9 @@ e (added)  keyed (partial) resets must cover every dependent tag; recorded slots
 h (added)  reset() overrides write nothing but the cache (the load path calls reset() after restoring state)
 i  hand-rolled caches anywhere in the package: key completeness (hv.memo)
 b (round 3)  a parameter enters the key whole: no lossy projection (round, //, len, ...), no selection of fields of an object the factory hands on whole
+d (round 4)  create_* methods of the services never memoise the object they create
+f (round 4)  no `numeric_parameter or default` (0 is a value); facade -> service argument binding over the whole facade (rules/common.py)
+h (round 4)  load_*_inplace adopts the loaded object's whole attribute dictionary or rebuilds the services
 e (round 3)  what a factory reads is followed through properties (lazy helpers built from configuration): a setter that replaces the configuration
    drops the results computed with the old one; an `if` guarding the invalidation in a setter compares exactly (no tolerance)
 """
@@ -58,6 +61,7 @@ def run(tier):
     _c_purity(chk, sites)
     _d_aliasing(chk, sites)
     _d_callers_mutate(chk, sites)
+    _d_create_is_fresh(chk)
     _e_invalidation(chk, sites)
     _e_lazy_slots(chk)
     _e_setter_guards(chk)
@@ -66,6 +70,7 @@ def run(tier):
     from .common import Relabel
     c05._d_period_setter(Relabel(chk, {"C05.d": "C20.e"}))
     _f_tags(chk, sites)
+    _f_falsy_defaults(chk)
     _g_identity(chk)
     _h_reload(chk)
     _i_hand_rolled(chk)
@@ -806,6 +811,46 @@ def _e_setter_guards(chk):
     chk.floor("invalidating calls inside property setters", n, 3)
 
 
+def _d_create_is_fresh(chk):
+    """`create_*` methods of the services hand out NEW domain objects (an orbit the caller will correct, re-period, propagate): memoising
+    them makes two requests with equal arguments return one object, so operations on the 'second' orbit change the first.  No
+    create_* method may route its result through get_or_create or store it in a cache attribute."""
+    n = 0
+    for m in _all_service_modules():
+        for cls in [c for c in m.tree.body if isinstance(c, ast.ClassDef)]:
+            for f in [f for f in cls.body if isinstance(f, ast.FunctionDef) and f.name.startswith("create_")]:
+                n += 1
+                memo = [ast.unparse(c.func) for c in ast.walk(f) if isinstance(c, ast.Call) and isinstance(c.func, ast.Attribute) and c.func.attr in ("get_or_create", "setdefault")]
+                stores = [ast.unparse(t)[:40] for st in ast.walk(f) if isinstance(st, ast.Assign) for t in st.targets if isinstance(t, ast.Subscript) and "cache" in ast.unparse(t.value).lower()]
+                chk.check(not memo and not stores, "C20.d", f"{m.name}::{cls.name}.{f.name}[fresh object]",
+                          f"{cls.name}.{f.name} memoises the object it creates ({memo + stores}): a second request with equal arguments returns the first object, with whatever "
+                          f"state it has acquired since", sample=f"{cls.name}.{f.name}: a new object per call", nontrivial=False)
+    chk.floor("create_* methods in the service package", n, 1)
+
+
+def _f_falsy_defaults(chk):
+    """`value or default` on a NUMERIC parameter treats the legitimate value 0 as "not given": the quantity computed for 0 is then
+    filed (or computed) under the default's identity.  Every `p or <expr>` in the package whose first operand is a parameter
+    annotated float / int (Optional included) must be written `p if p is not None else <expr>`.  (Strings, tuples and payload
+    objects, for which emptiness means absence, are not concerned.)"""
+    n = 0
+    for m in ri.all_modules():
+        if "._tests" in m.name or ".tests" in m.name:
+            continue
+        for q, fn in ri.functions_in(m):
+            ann = {a.arg: ast.unparse(a.annotation) for a in fn.args.args + fn.args.kwonlyargs if a.annotation is not None}
+            for b in ast.walk(fn):
+                if isinstance(b, ast.BoolOp) and isinstance(b.op, ast.Or) and isinstance(b.values[0], ast.Name) and b.values[0].id in ann:
+                    n += 1
+                    a = ann[b.values[0].id].replace("Optional[", "").replace("]", "").replace("'", "").replace('"', "")
+                    kinds = {t.strip() for t in a.replace("|", ",").split(",")}
+                    numeric = bool(kinds & {"float", "int", "np.floating", "np.integer", "complex"}) and not (kinds - {"float", "int", "None", "np.floating", "np.integer", "complex"})
+                    chk.check(not numeric, "C20.f", f"{m.name}::{q}[{b.values[0].id} or ...]",
+                              f"`{ast.unparse(b)[:80]}`: {b.values[0].id} is a numeric parameter ({ann[b.values[0].id]}), so the value 0 is replaced by the default: the result for 0 "
+                              f"is computed / stored as if the default had been asked for", sample=f"{q}: `{ast.unparse(b)[:60]}` on a non-numeric parameter", nontrivial=numeric)
+    chk.floor("`parameter or default` expressions examined", n, 5)
+
+
 def _h_save_filter(chk):
     """The decidable part of the save/load clause: the filter that selects what is written (_HitenBase._is_computed_property,
     applied to every attribute of the dynamics service) accepts every STATE SLOT of every dynamics service - an underscore
@@ -889,9 +934,36 @@ def _h_save_sources(chk):
     chk.floor("non-source services of service bundles examined", n, 3)
 
 
+def _h_inplace_loaders(chk):
+    """load_*_inplace(obj, path) makes `obj` the loaded object: the loaded instance's whole attribute dictionary is adopted - data AND the
+    services that were rebuilt for that data (they hold their own copies of bodies, mass ratio, caches).  Adopting a filtered subset keeps
+    services wired to the PREVIOUS data next to the new data; that is only sound if the services are rebuilt for `obj` afterwards
+    (_setup_services / __setstate__).  One obligation per in-place loader of hiten.utils.io."""
+    n = 0
+    for m in ri.all_modules():
+        if not m.name.startswith("hiten.utils.io"):
+            continue
+        for f in [f for f in m.tree.body if isinstance(f, ast.FunctionDef) and f.name.startswith("load_") and f.name.endswith("_inplace")]:
+            n += 1
+            target = f.args.args[0].arg
+            ups = [c for c in ast.walk(f) if isinstance(c, ast.Call) and isinstance(c.func, ast.Attribute) and c.func.attr == "update"
+                   and ast.unparse(c.func.value) == f"{target}.__dict__"]
+            from .. import sites as _s
+            whole = any(len(c.args) == 1 and isinstance(_s.resolve_local(f, c.args[0]), ast.Attribute) and _s.resolve_local(f, c.args[0]).attr == "__dict__" for c in ups)
+            rebuilt = any(isinstance(c, ast.Call) and isinstance(c.func, ast.Attribute) and c.func.attr in ("_setup_services", "__setstate__") and ast.unparse(c.func.value) == target
+                          for c in ast.walk(f))
+            setattrs = any(isinstance(c, ast.Call) and isinstance(c.func, ast.Name) and c.func.id == "setattr" for c in ast.walk(f))
+            chk.check(whole or rebuilt or (not ups and not setattrs), "C20.h", f"{m.name}::{f.name}[adopts the loaded object]",
+                      f"{f.name} copies a filtered part of the loaded object's attributes into `{target}` and does not rebuild {target}'s services: services bound to the old "
+                      f"data (bodies, mu, distance, caches) stay next to the new data", sample=f"{f.name}: {target}.__dict__.update(<loaded>.__dict__) whole, or services rebuilt",
+                      nontrivial=False)
+    chk.floor("in-place loaders in hiten.utils.io", n, 8)
+
+
 def _h_reload(chk):
     _h_save_filter(chk)
     _h_save_sources(chk)
+    _h_inplace_loaders(chk)
     n = 0
     for m in ri.all_modules():
         if not m.name.startswith("hiten.system"):
